@@ -610,6 +610,9 @@ class CallsMixin:
     def call_spec(self, spec, node, st, label):
         if isinstance(spec, str):
             spec = self.db.callee_spec(spec)
+        else:
+            spec = dict(spec)
+            spec['caller_scope'] = True   # inline specs are written in the caller's vocabulary
         if spec.get('ctor'):
             # object construction: a fresh reference, then the contract of the real __init__ applied to it.
             # (The reference is unconstrained: if it aliased an existing object that object's fields would be
@@ -649,6 +652,10 @@ class CallsMixin:
         for p, d in spec.get('defaults', {}).items():
             if p not in env:
                 env[p] = self.const(d)
+        if spec.get('caller_scope'):
+            for k, v in st.env.items():
+                if k not in env and not k.startswith('!'):
+                    env[k] = v
         for gname in spec.get('ghost', ()):
             # ghost parameters of the callee are instantiated with the caller's ghost of the same name
             if gname in st.env:
